@@ -10,7 +10,8 @@ fixed_lines = 2
 lean_modules = ["Driver.Cqueue"]
 CODECS = ["cobs", "cobs/r", "cobs/zpe", "cobs/zpe+r"]
 CAPS = [8, 16, 64, 256, 300]
-rule = ("scripts = 'eq new <codec> max= off=' + 'dq new <codec> max= off= align=' followed by a schedule of "
+rule = ("framings: the four COBS variants everywhere, zero terminated command text and no codec (raw) in streams 3 and 4; "
+        "scripts = 'eq new <codec> max= off=' + 'dq new <codec> max= off= align=' followed by a schedule of "
         "eq push/more/term/grow/align/take (write, flush: finished bytes move to the driver's wire), "
         "dq wire <n|code|frame|all> (deliver the next wire bytes: a count, up to the next block code byte, up to "
         "the next delimiter), dq recv/drain/shift/msg/peek/grow (receive) and a final 'sync'.  Stream 1 (exhaustive) = "
@@ -152,13 +153,15 @@ def scripts(tier, seed, scale=1):
     r = gen.rng(id, tier, seed, "random")
     nr = (150 if tier == "quick" else 2500) * scale
     for k in range(nr):
-        codec = r.choice(CODECS + CODECS + ["raw"])
+        codec = r.choice(CODECS + CODECS + ["raw", "command", "command"])
         emax, dmax = r.choice([8, 16, 16, 64]), r.choice([8, 16, 64])
         lines = new_lines(codec, emax, off_choice(r, emax), dmax, off_choice(r, dmax), r.randrange(16))
         for _ in range(r.choice([3, 6, 12])):
             m = small_messages(r, codec, 1)[0]
             if r.random() < 0.3:
                 m = m + [r.randrange(256) for _ in range(r.choice([10, 40]))]
+            if codec == "command" and r.random() < 0.85:
+                m = [b if b else 0x2e for b in m]
             if m:
                 lines.append("eq push " + gen.hexs(m))
             for _ in range(r.choice([0, 1, 3])):
@@ -175,7 +178,8 @@ def scripts(tier, seed, scale=1):
                     lines.append("dq recv")
                     lines.append("dq msg")
                 elif ev == "peek":
-                    lines.append("dq peek %d" % r.choice([0, 1, 4, 100]))
+                    if codec != "command":
+                        lines.append("dq peek %d" % r.choice([0, 1, 4, 100]))
                 elif ev == "msg":
                     lines.append("dq msg")
                 elif ev == "shift":
@@ -196,13 +200,15 @@ def scripts(tier, seed, scale=1):
     r = gen.rng(id, tier, seed, "wrap")
     nw = (400 if tier == "quick" else 6000) * scale
     for k in range(nw):
-        codec = r.choice(CODECS)
+        codec = r.choice(CODECS + ["command"])
         emax = r.choice([12, 16, 16, 24, 40, 64, 300])
         lines = new_lines(codec, emax, off_choice(r, emax), 64, r.randrange(64), r.randrange(16))
         for _ in range(r.choice([4, 8, 16])):
             n = r.choice([1, 1, 2, 3, 5, 8]) if emax < 300 else r.choice([1, 3, 40, 120, 250, 270, 300])
             p0 = r.choice([0.0, 0.3, 0.6])
             m = [0 if r.random() < p0 else r.choice([1, 7, 0xe0, 0xff, r.randrange(1, 256)]) for _ in range(n)]
+            if codec == "command" and r.random() < 0.85:
+                m = [b if b else 0x2e for b in m]
             if r.random() < 0.25:
                 lines.append("eq align %d" % r.randrange(emax + 1))
             lines.append("eq push " + gen.hexs(m))
@@ -249,6 +255,59 @@ def scripts(tier, seed, scale=1):
                          "st flush", "st deliver 300", "st poll", "st dispatch", "st deliver 1000000", "st poll", "st dispatch", "st sync"]
                 out.append(("glue-full:%s:%d:%d" % (codec, n1, n2), lines))
     return out
+
+
+class _XX:
+    """second part: the C++ wrappers encode_queue::push/trim, decode_queue::advance/current_message/pending_message
+    (mpt++/queue.cpp) through harness/drvxx_cqueue.cpp: the queue scripts of the first part with 'eq take' -> 'eq trim',
+    'dq recv' -> 'dq advance', 'dq drain' -> 'dq xdrain'"""
+    id = "C02"
+    area = "cqueue"
+    driver = "drvxx_cqueue"
+    cxx = True
+    fixed_lines = 2
+
+    @staticmethod
+    def corpus(chk):
+        return [(n, _XX.convert(s)) for n, s in gen.corpus(id) if s and s[0].startswith("eq new")]
+
+    @staticmethod
+    def convert(lines):
+        out = []
+        for ln in lines:
+            w = ln.split()
+            if w[0] == "eq" and w[1] == "take":
+                out.append("eq trim " + ("all" if int(w[2]) >= 100 else w[2]))
+            elif ln == "dq recv":
+                out.append("dq advance")
+            elif ln == "dq drain":
+                out.append("dq xdrain")
+            elif w[0] == "dq" and w[1] in ("peek", "shift", "feed"):
+                continue
+            elif w[0] == "st":
+                continue
+            else:
+                out.append(ln)
+        return out
+
+    @staticmethod
+    def scripts(tier, seed, scale=1):
+        out = []
+        for k, (name, lines) in enumerate(scripts(tier, seed, scale)):
+            if not lines or not lines[0].startswith("eq new") or " raw " in lines[0]:
+                continue
+            # every third script of the exhaustive stream, every script of the other streams
+            if name.startswith("ex:") and k % 3:
+                continue
+            out.append(("xx:" + name, _XX.convert(lines)))
+        return out
+
+    nontrivial = staticmethod(lambda script, c_lines: nontrivial(script, c_lines))
+    tally = staticmethod(lambda chk, script, c_lines: tally(chk, script, c_lines))
+    finding_key = staticmethod(lambda script, res: "xx:" + finding_key(script, res))
+
+
+extra_parts = [_XX]
 
 
 def _fields(ln):
